@@ -21,8 +21,18 @@ pub struct Config {
     pub fromfn: Vec<String>,
     /// macros whose expansion keeps the value (format! in value paths)
     pub format_value: bool,
-    /// derives kept on extracted types
+    /// derives kept on extracted field-less enums
     pub keep_derives: Vec<String>,
+    /// derives kept on every other extracted type (default: none)
+    pub keep_derives_struct: Vec<String>,
+    /// normalized type text => replacement type text
+    pub type_map: BTreeMap<String, String>,
+    /// types of the captured `let` variables of R-fromfn functions: fn name -> var -> type
+    pub fromfn_types: BTreeMap<String, BTreeMap<String, String>>,
+    /// method-chain suffix (normalized) => function applied to the receiver
+    pub chain_map: Vec<(String, String)>,
+    /// R-strslice: `&X[a..]` => vx_str_from(X, a)  (only in units where every such X is a str)
+    pub str_slice: bool,
 }
 
 impl Config {
@@ -41,10 +51,33 @@ impl Config {
         if let Some(a) = u["keep_traits"].as_array() {
             c.keep_traits = a.iter().map(|v| v.as_str().unwrap().to_string()).collect();
         }
-        if let Some(a) = u["fromfn"].as_array() {
-            c.fromfn = a.iter().map(|v| v.as_str().unwrap().to_string()).collect();
+        if let Some(m) = u["fromfn"].as_object() {
+            for (k, v) in m {
+                c.fromfn.push(k.clone());
+                let mut tm = BTreeMap::new();
+                if let Some(t) = v["types"].as_object() {
+                    for (a, b) in t {
+                        tm.insert(a.clone(), b.as_str().unwrap().to_string());
+                    }
+                }
+                c.fromfn_types.insert(k.clone(), tm);
+            }
+        }
+        if let Some(m) = u["type_map"].as_object() {
+            for (k, v) in m {
+                c.type_map.insert(norm(k), v.as_str().unwrap().to_string());
+            }
+        }
+        if let Some(a) = u["chain_map"].as_array() {
+            for e in a {
+                c.chain_map.push((norm(e["chain"].as_str().unwrap()), e["fn"].as_str().unwrap().to_string()));
+            }
         }
         c.format_value = u["format_value"].as_bool().unwrap_or(false);
+        if let Some(a) = u["keep_derives_struct"].as_array() {
+            c.keep_derives_struct = a.iter().map(|v| v.as_str().unwrap().to_string()).collect();
+        }
+        c.str_slice = u["str_slice"].as_bool().unwrap_or(false);
         c.keep_derives = match u["keep_derives"].as_array() {
             Some(a) => a.iter().map(|v| v.as_str().unwrap().to_string()).collect(),
             None => vec!["Clone".into(), "Copy".into(), "PartialEq".into(), "Eq".into()],
@@ -100,7 +133,7 @@ pub fn filter_attrs(attrs: &mut Vec<syn::Attribute>, cfg: &Config, fieldless_enu
                 let _ = a.parse_nested_meta(|m| {
                     let n = m.path.to_token_stream().to_string().replace(' ', "");
                     let last = n.rsplit("::").next().unwrap().to_string();
-                    if cfg.keep_derives.contains(&last) {
+                    if (fieldless_enum && cfg.keep_derives.contains(&last)) || cfg.keep_derives_struct.contains(&last) {
                         keep.push(last);
                     }
                     Ok(())
@@ -413,14 +446,73 @@ impl<'a> VisitMut for Rewriter<'a> {
                 *e = n;
             }
         }
+        // R-chain: RECV<chain> => f(RECV)
+        if let Expr::MethodCall(_) = e {
+            let full = norm(&e.to_token_stream().to_string());
+            let mut hit: Option<Expr> = None;
+            for (chain, f) in self.cfg.chain_map.iter() {
+                if full.ends_with(chain.as_str()) {
+                    // find the receiver whose text is the prefix
+                    let mut cur: &Expr = e;
+                    while let Expr::MethodCall(mc) = cur {
+                        let r = norm(&mc.receiver.to_token_stream().to_string());
+                        if format!("{}{}", r, chain) == full {
+                            let fpath = parse_expr_str(f);
+                            let recv = &mc.receiver;
+                            hit = Some(parse_quote!(#fpath(#recv)));
+                            break;
+                        }
+                        cur = &mc.receiver;
+                    }
+                }
+                if hit.is_some() {
+                    fire(self.fired, "R-chain");
+                    break;
+                }
+            }
+            if let Some(h) = hit {
+                *e = h;
+            }
+        }
         visit_mut::visit_expr_mut(self, e);
+        // R-strslice
+        if self.cfg.str_slice {
+            let mut rep: Option<Expr> = None;
+            if let Expr::Reference(r) = e {
+                if r.mutability.is_none() {
+                    if let Expr::Index(ix) = &*r.expr {
+                        if let Expr::Range(rg) = &*ix.index {
+                            if let (Some(a), None, syn::RangeLimits::HalfOpen(_)) = (&rg.start, &rg.end, &rg.limits) {
+                                let x = &ix.expr;
+                                rep = Some(parse_quote!(vx_str_from(#x, #a)));
+                            }
+                        }
+                    }
+                }
+            }
+            if let Some(n) = rep {
+                fire(self.fired, "R-strslice");
+                *e = n;
+            }
+        }
         match e {
             // R-method-map: recv.m(args) => f(recv, args)
             Expr::MethodCall(mc) => {
                 let name = mc.method.to_string();
-                if let Some(f) = self.cfg.method_map.get(&name) {
-                    let fpath: Expr = parse_expr_str(f);
-                    let recv = &mc.receiver;
+                if let Some(f0) = self.cfg.method_map.get(&name) {
+                    // "f:&mut" => f(&mut recv, args); "f:&" => f(&recv, args)
+                    let (f, mode) = match f0.split_once(':') {
+                        Some((a, b)) => (a.to_string(), b.to_string()),
+                        None => (f0.clone(), String::new()),
+                    };
+                    let fpath: Expr = parse_expr_str(&f);
+                    let r0 = &mc.receiver;
+                    let recv_e: Expr = match mode.as_str() {
+                        "&mut" => parse_quote!(&mut #r0),
+                        "&" => parse_quote!(&#r0),
+                        _ => (**r0).clone(),
+                    };
+                    let recv = &recv_e;
                     let args = &mc.args;
                     let turbofish = &mc.turbofish;
                     let call: Expr = if args.is_empty() {
@@ -492,6 +584,19 @@ impl<'a> VisitMut for Rewriter<'a> {
             }
         }
         visit_mut::visit_expr_if_mut(self, w);
+    }
+
+    fn visit_type_mut(&mut self, t: &mut syn::Type) {
+        let key = norm(&t.to_token_stream().to_string());
+        if let Some(rep) = self.cfg.type_map.get(&key) {
+            let ts: TokenStream = rep.parse().unwrap();
+            if let Ok(nt) = syn::parse2::<syn::Type>(respan(ts)) {
+                *t = nt;
+                fire(self.fired, "R-type-map");
+                return;
+            }
+        }
+        visit_mut::visit_type_mut(self, t);
     }
 
     fn visit_type_path_mut(&mut self, t: &mut syn::TypePath) {
@@ -699,4 +804,209 @@ pub fn quote_marker(k: usize) -> Stmt {
     let lit = proc_macro2::Literal::usize_unsuffixed(k);
     let ts = quote!(__vx_insert!(#lit););
     syn::parse2(ts).unwrap()
+}
+
+
+// ------------------------------------------------------------------------------------------
+// R-fromfn
+// ------------------------------------------------------------------------------------------
+
+pub struct FromFn {
+    pub struct_item: syn::ItemStruct,
+    pub init_sig: syn::Signature,
+    pub init_block: Block,
+    pub next_sig: syn::Signature,
+    pub next_block: Block,
+    pub impl_generics: syn::Generics,
+    pub self_ty: syn::Type,
+}
+
+struct AddLifetime;
+impl VisitMut for AddLifetime {
+    fn visit_type_reference_mut(&mut self, r: &mut syn::TypeReference) {
+        if r.lifetime.is_none() {
+            r.lifetime = Some(syn::Lifetime::new("'a", Span::call_site()));
+        }
+        visit_mut::visit_type_reference_mut(self, r);
+    }
+}
+
+struct SelfField<'a> {
+    names: &'a [String],
+    bad: Option<String>,
+}
+impl<'a> VisitMut for SelfField<'a> {
+    fn visit_expr_mut(&mut self, e: &mut Expr) {
+        if let Expr::Path(p) = e {
+            if p.qself.is_none() && p.path.segments.len() == 1 {
+                let n = p.path.segments[0].ident.to_string();
+                if self.names.contains(&n) {
+                    let id = &p.path.segments[0].ident;
+                    *e = parse_quote!(self.#id);
+                    return;
+                }
+            }
+        }
+        visit_mut::visit_expr_mut(self, e);
+    }
+    fn visit_pat_ident_mut(&mut self, p: &mut syn::PatIdent) {
+        let n = p.ident.to_string();
+        if self.names.contains(&n) {
+            self.bad = Some(n);
+        }
+    }
+}
+
+/// fn f(params) -> impl Iterator<Item = T> { lets; std::iter::from_fn(move || BODY) }
+pub fn from_fn(f: &syn::ItemFn, cfg: &Config, fired: &mut Fired) -> FromFn {
+    let name = f.sig.ident.to_string();
+    let types = cfg.fromfn_types.get(&name).cloned().unwrap_or_default();
+    let n = f.block.stmts.len();
+    if n == 0 {
+        die("R-fromfn: empty body");
+    }
+    // last statement: from_fn(move || BODY)
+    let closure: syn::ExprClosure = match &f.block.stmts[n - 1] {
+        Stmt::Expr(Expr::Call(c), None) => {
+            let callee = norm(&c.func.to_token_stream().to_string());
+            if !(callee.ends_with("iter::from_fn") || callee == "from_fn") || c.args.len() != 1 {
+                die("R-fromfn: tail is not from_fn(closure)");
+            }
+            match &c.args[0] {
+                Expr::Closure(cl) if cl.inputs.is_empty() && cl.capture.is_some() => cl.clone(),
+                _ => die("R-fromfn: argument is not `move || ..`"),
+            }
+        }
+        _ => die("R-fromfn: tail is not from_fn(closure)"),
+    };
+    // captured: params + leading lets
+    let mut fields: Vec<(syn::Ident, syn::Type)> = Vec::new();
+    for a in f.sig.inputs.iter() {
+        match a {
+            syn::FnArg::Typed(pt) => match &*pt.pat {
+                Pat::Ident(pi) => {
+                    let mut ty = (*pt.ty).clone();
+                    AddLifetime.visit_type_mut(&mut ty);
+                    fields.push((pi.ident.clone(), ty));
+                }
+                _ => die("R-fromfn: unsupported parameter pattern"),
+            },
+            _ => die("R-fromfn: receiver not supported"),
+        }
+    }
+    let mut lets: Vec<Stmt> = Vec::new();
+    for s in f.block.stmts[..n - 1].iter() {
+        match s {
+            Stmt::Local(l) => {
+                let id = match &l.pat {
+                    Pat::Ident(pi) => pi.ident.clone(),
+                    Pat::Type(pt) => match &*pt.pat {
+                        Pat::Ident(pi) => pi.ident.clone(),
+                        _ => die("R-fromfn: unsupported let pattern"),
+                    },
+                    _ => die("R-fromfn: unsupported let pattern"),
+                };
+                let ty = match types.get(&id.to_string()) {
+                    Some(t) => syn::parse_str::<syn::Type>(t).unwrap_or_else(|_| die("R-fromfn: bad type in config")),
+                    None => die(&format!("R-fromfn: no declared type for captured `{}` (unit.json fromfn.types)", id)),
+                };
+                // annotate the let with the declared type so that inference cannot differ
+                let mut l2 = l.clone();
+                if let Pat::Ident(pi) = &l.pat {
+                    let pi2 = pi.clone();
+                    l2.pat = Pat::Type(syn::PatType {
+                        attrs: Vec::new(),
+                        pat: Box::new(Pat::Ident(pi2)),
+                        colon_token: Default::default(),
+                        ty: Box::new(ty.clone()),
+                    });
+                }
+                lets.push(Stmt::Local(l2));
+                fields.push((id, ty));
+            }
+            _ => die("R-fromfn: only `let` statements may precede from_fn"),
+        }
+    }
+    let names: Vec<String> = fields.iter().map(|(i, _)| i.to_string()).collect();
+    let st_ident = syn::Ident::new(&format!("{}__Iter", name), Span::call_site());
+    let fnames: Vec<&syn::Ident> = fields.iter().map(|(i, _)| i).collect();
+    let ftys: Vec<&syn::Type> = fields.iter().map(|(_, t)| t).collect();
+    let struct_item: syn::ItemStruct = parse_quote!(pub struct #st_ident<'a> { #(pub #fnames: #ftys),* });
+    // item type
+    let item_ty: syn::Type = match &f.sig.output {
+        syn::ReturnType::Type(_, t) => {
+            let s = t.to_token_stream().to_string();
+            let p = s.find("Item =").unwrap_or_else(|| die("R-fromfn: return type is not impl Iterator<Item = ..>"));
+            let rest = s[p + 6..].trim();
+            let inner = rest.strip_suffix('>').unwrap_or_else(|| die("R-fromfn: bad return type")).trim();
+            let mut ty: syn::Type = syn::parse_str(inner).unwrap_or_else(|_| die("R-fromfn: bad item type"));
+            AddLifetime.visit_type_mut(&mut ty);
+            ty
+        }
+        _ => die("R-fromfn: no return type"),
+    };
+    // init fn
+    let mut init_sig = f.sig.clone();
+    init_sig.generics = parse_quote!(<'a>);
+    for a in init_sig.inputs.iter_mut() {
+        if let syn::FnArg::Typed(pt) = a {
+            AddLifetime.visit_type_mut(&mut pt.ty);
+        }
+    }
+    init_sig.output = parse_quote!(-> #st_ident<'a>);
+    let init_block: Block = parse_quote!({ #(#lets)* #st_ident { #(#fnames),* } });
+    // next fn
+    let next_sig: syn::Signature = parse_quote!(fn next(&mut self) -> Option<#item_ty>);
+    let mut body: Expr = (*closure.body).clone();
+    let mut sf = SelfField { names: &names, bad: None };
+    sf.visit_expr_mut(&mut body);
+    if let Some(b) = sf.bad {
+        die(&format!("R-fromfn: captured variable `{}` is re-bound inside the closure (unsupported)", b));
+    }
+    let next_block: Block = match body {
+        Expr::Block(b) if b.label.is_none() => b.block,
+        other => parse_quote!({ #other }),
+    };
+    fire(fired, "R-fromfn");
+    FromFn {
+        struct_item,
+        init_sig,
+        init_block,
+        next_sig,
+        next_block,
+        impl_generics: parse_quote!(<'a>),
+        self_ty: parse_quote!(#st_ident<'a>),
+    }
+}
+
+
+// ------------------------------------------------------------------------------------------
+// R-mutself: `fn f(mut self, ..) { B }`  =>  `fn f(self, ..) { let mut __self = self; B[self := __self] }`
+// (Verus: "mut self" unsupported). Pure renaming of a by-value binding.
+// ------------------------------------------------------------------------------------------
+struct RenameSelf;
+impl VisitMut for RenameSelf {
+    fn visit_expr_mut(&mut self, e: &mut Expr) {
+        if let Expr::Path(p) = e {
+            if p.qself.is_none() && p.path.is_ident("self") {
+                *e = parse_quote!(__self);
+                return;
+            }
+        }
+        visit_mut::visit_expr_mut(self, e);
+    }
+    fn visit_expr_closure_mut(&mut self, c: &mut syn::ExprClosure) {
+        visit_mut::visit_expr_closure_mut(self, c);
+    }
+}
+
+pub fn mut_self(sig: &mut syn::Signature, block: &mut Block, fired: &mut Fired) {
+    if let Some(syn::FnArg::Receiver(r)) = sig.inputs.first_mut() {
+        if r.reference.is_none() && r.mutability.is_some() {
+            r.mutability = None;
+            RenameSelf.visit_block_mut(block);
+            block.stmts.insert(0, parse_quote!(let mut __self = self;));
+            fire(fired, "R-mutself");
+        }
+    }
 }
